@@ -444,6 +444,17 @@ func ruleC07ArchiveSuffix(c *Checker) {
 				if ok {
 					want[k] = true
 				}
+				// ... on the path as it is kept: a suffix test of a case-folded or trimmed copy accepts paths that have
+				// neither of the two suffixes, and the URL stored is the original
+				transformed := ""
+				for w := range p.backSlice(ci.Common().Args[0], 0) {
+					if tc, isCall := w.(*ssa.Call); isCall {
+						if o := calleeObj(tc); o != nil && (objPkgPath(o) == "strings" || objPkgPath(o) == "unicode" || objPkgPath(o) == "bytes") {
+							transformed = o.FullName()
+						}
+					}
+				}
+				c.check(transformed == "", R, p.FuncName(h), "suffix "+strconv.Quote(k)+" tested on the path as kept", p.Pos(ci.Pos()), "the URL's own (escaped) path", "the suffix is looked for in a transformed copy of the path ("+transformed+"), while the URL is stored as given: foo.TGZ is accepted as an archive address although it has neither documented suffix nor an archive argument")
 				c.check(ok, R, p.FuncName(h), "suffix "+strconv.Quote(k), p.Pos(ci.Pos()), "a documented archive suffix", "the path is accepted when it ends in "+strconv.Quote(k)+", which is not one of the documented archive suffixes .tar.gz and .tgz (a missing dot accepts …/footgz)")
 			}
 		}
@@ -3395,4 +3406,214 @@ func fieldOfLocalStruct(al *ssa.Alloc, field int, depth int) (bool, bool) {
 		return false, true // zero value
 	}
 	return false, false
+}
+
+// ---- round 17 ----
+
+// ruleNilReceiverAfterError — what comes with an error is used only once the error is known to be nil.
+func ruleNilReceiverAfterError(id string) func(*Checker) {
+	return func(c *Checker) {
+		c.rule(id, "Where a call returns a pointer together with an error, every use of the pointer as a receiver or through a dereference — a method call, a deferred or go'ed method call, a field access — lies past the nil edge of a test of that error: on the error edge the pointer is nil, and `defer z.Close()` written in front of the test runs (*gzip.Reader).Close on a nil reader when the stream is not gzip at all — a panic where an error was due. (*os.File).Close is exempt: it is documented to tolerate a nil receiver.", 10)
+		p := c.P
+		n := 0
+		for _, fn := range p.Funcs {
+			if !p.InModule(fn) {
+				continue
+			}
+			name := p.FuncName(fn)
+			for _, ci := range callsIn(fn) {
+				cl, ok := ci.(*ssa.Call)
+				if !ok {
+					continue
+				}
+				res := cl.Call.Signature().Results()
+				if res.Len() != 2 || !isErrorType(res.At(1).Type()) {
+					continue
+				}
+				if _, isPtr := res.At(0).Type().Underlying().(*types.Pointer); !isPtr {
+					continue
+				}
+				v := extractOf(cl, 0)
+				if v == nil || v.Referrers() == nil {
+					continue
+				}
+				okE, _ := okEdgesOfCall(cl)
+				k := 0
+				for _, r := range *v.Referrers() {
+					use := ""
+					switch x := r.(type) {
+					case ssa.CallInstruction:
+						cm := x.Common()
+						if !cm.IsInvoke() && len(cm.Args) > 0 && cm.Args[0] == v {
+							if o := calleeObj(x); o != nil && o.Type().(*types.Signature).Recv() != nil {
+								if isMethod(o, "os", "File", "Close") {
+									continue
+								}
+								use = "method " + o.Name()
+								switch r.(type) {
+								case *ssa.Defer:
+									use = "deferred " + use
+								case *ssa.Go:
+									use = "go'ed " + use
+								}
+							}
+						}
+					case *ssa.FieldAddr:
+						if x.X == v {
+							use = "field access"
+						}
+					case *ssa.UnOp:
+						if x.Op == token.MUL && x.X == v {
+							use = "dereference"
+						}
+					}
+					if use == "" {
+						continue
+					}
+					n++
+					k++
+					cn := "a call"
+					if o := calleeObj(cl); o != nil {
+						cn = o.FullName()
+					}
+					c.check(len(okE) > 0 && guarded(r.Block(), okE), id, name, fmt.Sprintf("%s on the result of %s #%d", use, cn, k), p.Pos(r.Pos()), "past the nil edge of the error test", "the pointer returned by "+cn+" is used ("+use+") where its error may be non-nil and the pointer nil: a panic where an error was due")
+				}
+			}
+		}
+		_ = n
+	}
+}
+
+// ruleJoinOperandsAsGiven — the sub-path join takes its operands as they are.
+func ruleJoinOperandsAsGiven(id string) func(*Checker) {
+	return func(c *Checker) {
+		c.rule(id, "In the joining sanitiser of sub-paths (the (string, error) function of the address package that joins its two string parameters with path.Join) the operands of the join are the two parameters themselves, in order: trimming a leading \"./\" off the relative part first makes the join of an empty sub-path with \"./\" the empty string, which is then refused as an escape, and a cutset trim eats leading dots of a name.", 1)
+		p := c.P
+		n := 0
+		for fn := range p.subPathSanitisers() {
+			if len(fn.Params) != 2 || !isStringType(fn.Params[0].Type()) || !isStringType(fn.Params[1].Type()) {
+				continue
+			}
+			for _, ci := range callsTo(fn, func(o *types.Func) bool { return isFunc(o, "path", "Join") }) {
+				args := joinArgs(ci)
+				n++
+				ok := len(args) == 2 && canon(args[0]) == ssa.Value(fn.Params[0]) && canon(args[1]) == ssa.Value(fn.Params[1])
+				c.check(ok, id, p.FuncName(fn), "join operands are the parameters", p.Pos(ci.Pos()), "path.Join(subPath, rel)", "the sub-path join is made on something other than the two values it was given (a trimmed or otherwise rewritten relative path): \"./\" at a package root, or a name beginning with a dot, resolves differently or not at all")
+			}
+		}
+		c.check(n > 0, id, "-", "joining sanitiser found", "-", fmt.Sprintf("%d join(s)", n), "no (string, error) function joining two string parameters with path.Join found")
+	}
+}
+
+// ruleHashPrefixEmpty — the directory name is a function of the tree alone.
+func ruleHashPrefixEmpty(id string) func(*Checker) {
+	return func(c *Checker) {
+		c.rule(id, "Every call of dirhash.HashDir in the bundle package passes the empty constant as prefix: the prefix is put in front of every hashed file name, so a prefix made of anything about the request (source type, address) gives byte-identical trees different directory names — packages with the same paths and contents no longer share one directory.", 1)
+		p := c.P
+		n := 0
+		for _, fn := range p.Funcs {
+			if !inBundlePkg(p, fn) {
+				continue
+			}
+			for _, ci := range callsIn(fn) {
+				if fullName(calleeObj(ci)) != "golang.org/x/mod/sumdb/dirhash.HashDir" {
+					continue
+				}
+				n++
+				s, isC := constString(ci.Common().Args[1])
+				c.check(isC && s == "", id, p.FuncName(fn), "hash prefix is empty", p.Pos(ci.Pos()), "dirhash.HashDir(dir, \"\", …)", "the content hash is taken with a prefix that is not the empty constant: the directory name depends on more than the package's files")
+			}
+		}
+		c.check(n > 0, id, "-", "content hash taken", "-", fmt.Sprintf("%d call(s)", n), "dirhash.HashDir is no longer called in the bundle package")
+	}
+}
+
+// ruleEveryOfferedVersionListed — the list selected from holds every version the registry offered.
+func ruleEveryOfferedVersionListed(id string) func(*Checker) {
+	return func(c *Checker) {
+		c.rule(id, "In the function that turns the registry's answer into the version list ([]ModulePackageInfo → versions.List), every iteration of the loop over the answer puts that entry's version into the list (a store into the list's element or an append) before the next iteration starts: an entry skipped for looking like its neighbour (`Same` ignores build metadata) is a version the registry offers and the selection never sees.", 1)
+		p := c.P
+		n := 0
+		isInfos := func(t types.Type) bool {
+			sl, ok := t.Underlying().(*types.Slice)
+			return ok && strings.HasSuffix(sl.Elem().String(), "ModulePackageInfo")
+		}
+		puts := func(x ssa.Instruction) bool {
+			switch y := x.(type) {
+			case *ssa.Store:
+				if ea, ok := y.Addr.(*ssa.IndexAddr); ok && strings.HasSuffix(derefType(ea.X.Type()).String(), "versions.List") {
+					return true
+				}
+			case *ssa.Call:
+				if bi, ok := y.Call.Value.(*ssa.Builtin); ok && bi.Name() == "append" && strings.HasSuffix(y.Type().String(), "versions.List") {
+					return true
+				}
+			}
+			return false
+		}
+		for _, fn := range p.Funcs {
+			if !inBundlePkg(p, fn) {
+				continue
+			}
+			for _, b := range fn.Blocks {
+				// the body entry of a loop over the answer: the block an element of a []ModulePackageInfo is taken in,
+				// in a loop that builds a versions.List
+				for _, in := range b.Instrs {
+					ia, ok := in.(*ssa.IndexAddr)
+					if !ok || !isInfos(ia.X.Type()) || !inLoop(b) {
+						continue
+					}
+					head := loopHeadOf(b)
+					builds := false
+					for _, lb := range fn.Blocks {
+						if lb == head || (reaches(lb, head) && reaches(head, lb)) {
+							for _, li := range lb.Instrs {
+								if puts(li) {
+									builds = true
+								}
+							}
+						}
+					}
+					if !builds {
+						continue
+					}
+					n++
+					ok2, off := mustPassOK(in, puts, func(*ssa.Return) bool { return false }, func(x ssa.Instruction) bool {
+						return x.Block() == head && x == head.Instrs[0]
+					})
+					pos := p.Pos(in.Pos())
+					if off != nil {
+						pos = p.Pos(off.Pos())
+					}
+					c.check(ok2, id, p.FuncName(fn), "every entry of the answer is listed", pos, "each iteration stores or appends its version", "an iteration over the registry's answer can go on to the next entry without having put this one into the list: a version the registry offers is withheld from the selection")
+				}
+			}
+		}
+		c.check(n > 0, id, "-", "version list extraction found", "-", fmt.Sprintf("%d loop(s)", n), "no loop over the registry's answer that builds a versions.List found")
+	}
+}
+
+// ruleAbsOfTheGivenPath — the reverse lookup makes absolute the path it was given.
+func ruleAbsOfTheGivenPath(id string) func(*Checker) {
+	return func(c *Checker) {
+		c.rule(id, "In Bundle.SourceForLocalPath (and what it reaches in the bundle package) the argument of filepath.Abs is the path parameter itself: a relative path means relative to the working directory, as everywhere else; joined onto the bundle root first it names a different file, so a path inside a package is reported as outside and one outside as inside.", 1)
+		p := c.P
+		fn := p.Fn(bundlePkg, "Bundle.SourceForLocalPath")
+		if fn == nil {
+			c.anchorMissing(id, "Bundle.SourceForLocalPath")
+			return
+		}
+		n := 0
+		for _, g := range sortedFuncs(p.reach(fn)) {
+			if !inBundlePkg(p, g) {
+				continue
+			}
+			for _, ci := range callsTo(g, func(o *types.Func) bool { return isFunc(o, "path/filepath", "Abs") }) {
+				n++
+				_, isParam := canon(ci.Common().Args[0]).(*ssa.Parameter)
+				c.check(isParam, id, p.FuncName(g), "Abs of the path as given", p.Pos(ci.Pos()), "filepath.Abs(p)", "the path is rewritten before it is made absolute (joined onto the bundle root, cleaned against another base): a relative path no longer means what it means to the caller")
+			}
+		}
+		c.check(n > 0, id, p.FuncName(fn), "path made absolute", p.Pos(fn.Pos()), fmt.Sprintf("%d call(s)", n), "the reverse lookup no longer makes its path absolute")
+	}
 }
